@@ -2,7 +2,7 @@
 
 E1: every code point on a small (index, line, column) grid for construction; every range on a 0..G index grid
 (pairs and triples exhaustively) for the order / containment / overlap / hull laws; every range x 3 sources for
-get_raw(); every tuple of <= 4 operands over a 13-origin alphabet (no origin, overlapping / touching / disjoint code
+get_raw(); every tuple of <= 4 operands over a 14-origin alphabet (no origin, overlapping / touching / disjoint code
 origins, one whose points carry other line / column labels, one on an equal but separately built source, another source, generated, XML, an existing flat multi-origin) for merge_origins, concat_origins and
 left-folded +, compared with a reference fold written from the statement.
 """
@@ -37,7 +37,7 @@ PID = "C15"
 RULE = (
     "points: all (index, line, column) in [-1..G] x [0..2] x [-1..1]; ranges: all ordered index pairs on 0..G incl. ill-formed; "
     "all pairs and triples of well-formed ranges for the laws; every range on texts of length 0, 3, 6 and a non-text source for "
-    "get_raw; all pairs also with every labelling of the end points (same index, other line / column); all operand tuples of length <= 4 over 13 origins for merge / concat / +.  states = distinct operand tuples and "
+    "get_raw; all pairs also with every labelling of the end points (same index, other line / column); all operand tuples of length <= 4 over 14 origins for merge / concat / +.  states = distinct operand tuples and "
     "range tuples; transitions = law instances / operations evaluated against the reference; non-trivial = operand tuples whose "
     "reference result is a MultiOrigin or a coalesced CodeOrigin (not simply one operand or NoOrigin)"
 )
@@ -194,6 +194,7 @@ def alphabet():
         "c24": CodeOrigin(s6, R(2, 4)),     # touches c02
         "c56": CodeOrigin(s6, R(5, 6)),     # disjoint from the others
         "e13": CodeOrigin(MemoryTextSource("abcdef", source_uri="mem://t6"), R(1, 3)),   # an EQUAL but separately built source: same source as c02 / c24
+        "x13": CodeOrigin(Source("mem://t6", "look-alike", _raw=b"abcdef"), R(1, 3)),   # a DIFFERENT source with the same uri / fqn as s6
         "v23": CodeOrigin(s6, RV((2, 3), (1, 1))),   # touches c02 / overlaps c13, c24; its points carry other line / column labels
         "d02": CodeOrigin(s3, R(0, 2)),     # same range, other source
         "gen": GeneratedCodeOrigin(s3),     # a CodeOrigin subclass at 0-0 on s3: touches d02
